@@ -78,6 +78,8 @@ let handle kind fs obs =
        | _ -> false)) in
     let ok = (not bang) && wf_ok && rt_ok && enc_ok in
     (mobs, ok, res = "ok" || expect <> "skip", Printf.sprintf "%s,%s" expect (if bang then "bang" else if res = "ok" then "accepted" else "rejected:" ^ res),
-     (if (not ok) && kc && wf_ok && not bang then Some (if Z.equal (z_of_n key) Z.zero then "key_is_zero" else "records_contain_false_header") else None))
+     (* the two known classes (F20 false header inside the records, key zero) are ambiguities of the DECODING: they excuse a
+        failing round trip only; what is accepted must still be well formed and re-encode to the checksum-keyed words *)
+     (if (not ok) && kc && wf_ok && enc_ok && not bang then Some (if Z.equal (z_of_n key) Z.zero then "key_is_zero" else "records_contain_false_header") else None))
   | _ -> ("!unknown-kind", false, false, "unknown", None)
 let () = run_driver handle
